@@ -269,6 +269,8 @@ Lemma stops_semicolon p (r : str) : eval p 59 = false -> stops (eval p) (59 :: r
 Proof. intros H. exact H. Qed.
 
 Ltac tag := apply parses_tag_lit; reflexivity.
+(** right-associate and push conses out of appends *)
+Ltac norm_app := repeat (progress (rewrite <- ?app_assoc; cbn [app])).
 
 Theorem yields_reference (x : reference) (r : str) : reference_ok x ->
   yields (NT nt_reference) (d_reference x ++ r) (VReference x) r.
